@@ -570,7 +570,7 @@ func (f *Frame) execBuiltin(ins ssa.Instruction, call *ssa.CallCommon, bi *ssa.B
 	case "new":
 		et := derefType(call.Signature().Results().At(0).Type())
 		r := f.allocRef(st, "new")
-		st.store(&Addr{ref: r, base: et, typ: et}, zeroOf(et))
+		st.store(refAddr(r, et), zeroOf(et))
 		return r
 	case "ssa:wrapnilchk":
 		x := arg(0)
@@ -739,6 +739,7 @@ func init() {
 			}
 			return r
 		},
+		"github.com/yandex/mysync/internal/util.RunParallel": runParallelModel,
 		"math.Floor": func(f *Frame, ins ssa.Instruction, call *ssa.CallCommon, ct *callTarget, st *State) Value {
 			return mk("to_real", sortReal, mk("to_int", sortInt, T(f, ct, st, 0)))
 		},
@@ -771,9 +772,25 @@ func noop(f *Frame, ins ssa.Instruction, call *ssa.CallCommon, ct *callTarget, s
 	return &Tuple{}
 }
 
+// containsTerm: membership of x in slice s, as an uninterpreted predicate with skolemised definition
+// (no existential quantifier in the formula: (a) every element is a member, (b) a member has a witness index).
 func containsTerm(s, x *Term) *Term {
-	b, k := freshBVar("k", sortInt)
-	return mkQuant("exists", []BVar{b}, tAnd(tLe(tInt(0), k), tLt(k, slLen(s)), tEq(tSelect(slArr(s), k), x)))
+	es := x.Sort
+	cn := "contains$" + sanitize(s.Sort.Name)
+	wn := "witness$" + sanitize(s.Sort.Name)
+	declFun(cn, []*Sort{s.Sort, es}, sortBool)
+	declFun(wn, []*Sort{s.Sort, es}, sortInt)
+	bs, sv := freshBVar("s", s.Sort)
+	bi, iv := freshBVar("i", sortInt)
+	bx, xv := freshBVar("x", es)
+	elem := tSelect(slArr(sv), iv)
+	member := app(cn, sortBool, sv, elem)
+	axA := mkForallPat([]BVar{bs, bi}, tImp(tAnd(tLe(tInt(0), iv), tLt(iv, slLen(sv))), member), []*Term{elem})
+	w := app(wn, sortInt, sv, xv)
+	cx := app(cn, sortBool, sv, xv)
+	axB := mkForallPat([]BVar{bs, bx}, tImp(cx, tAnd(tLe(tInt(0), w), tLt(w, slLen(sv)), tEq(tSelect(slArr(sv), w), xv))), []*Term{cx})
+	addAxiom("def_"+cn, tAnd(axA, axB), cn)
+	return app(cn, sortBool, s, x)
 }
 
 func errIs(e, target *Term) *Term {
@@ -934,5 +951,121 @@ func (f *Frame) caseSplitCall(ins ssa.Instruction, call *ssa.CallCommon, ct *cal
 func strIndex(f *Frame, st *State, s, sep *Term) *Term {
 	r := uf("str_index", sortInt, s, sep)
 	f.addHyp(st.pc, tAnd(tLe(tInt(-1), r), tLe(r, strLen(s))))
+	return r
+}
+
+// runParallelModel: assumed higher-order contract of util.RunParallel(f, xs):
+//   * the result map has exactly the keys of xs;
+//   * for each key k the pair (k, result[k]) satisfies the [par]-tagged postconditions of f (facts about f's own
+//     key only: each instance writes per-host ghost cells only at its own key, which is a verified postcondition
+//     of the closure, so parallel composition preserves them);
+//   * per-host ghost maps are unchanged at hosts that are not arguments; integer effect counters only grow.
+func runParallelModel(f *Frame, ins ssa.Instruction, call *ssa.CallCommon, ct *callTarget, st *State) Value {
+	f.root.notes["assumed contract: util.RunParallel (result keys = arguments; per-key [par] postconditions of the closure; frame at other hosts)"] = true
+	xs := f.asTerm(ct.args[1], ct.argTypes[1], st)
+	var clo *Closure
+	switch x := ct.args[0].(type) {
+	case *Closure:
+		clo = x
+	case *Term:
+		clo = f.eng.closureByTerm[x]
+	}
+	pre := st.clone()
+	mt := call.Signature().Results().At(0).Type().Underlying().(*types.Map)
+	// fresh result map
+	r := f.allocRef(st, "parres")
+	key := mapHeapKey(mt)
+	os := mapObjSort(mt)
+	dom := fresh("pardom", os.Fields[0].Sort)
+	val := fresh("parval", os.Fields[1].Sort)
+	st.setHeap(key, tStore(st.heap(key), r, tCtor(os, dom, val)))
+	bk, k := freshBVar("k", sortStr)
+	f.addHyp(tTrue(), mkQuant("forall", []BVar{bk}, tEq(tSelect(dom, k), containsTerm(xs, k))))
+	bk0, k0 := freshBVar("k", sortStr)
+	f.addHyp(tTrue(), mkQuant("forall", []BVar{bk0}, tGe(tSelect(val, k0), tInt(0))))
+	if clo == nil {
+		f.note("RunParallel with an unknown function value: effects not modelled")
+		return r
+	}
+	ms := f.eng.calleeMods(clo.Fn)
+	f.applyModSet(st, pre, ms, "RunParallel")
+	// frame of per-host ghost maps at non-argument hosts
+	for g := range ms.ghosts {
+		cur, old := st.ghost[g], pre.ghost[g]
+		if cur == nil || cur.Sort.Kind != "array" || cur.Sort.Idx != sortStr {
+			continue
+		}
+		bh, h := freshBVar("h", sortStr)
+		f.addHyp(tTrue(), mkQuant("forall", []BVar{bh}, tImp(tNot(containsTerm(xs, h)), tEq(tSelect(cur, h), tSelect(old, h)))))
+	}
+	c := f.eng.db.Contracts[shortName(clo.Fn)]
+	if c == nil {
+		f.note("RunParallel closure without contract: per-key results unconstrained")
+		return r
+	}
+	// parallel append to captured slices (parelem): every element afterwards was there before or was appended
+	// by the instance of some argument
+	for _, pe := range c.ParElem {
+		for bi2, fv := range clo.Fn.FreeVars {
+			if fv.Name() != pe.Callee || bi2 >= len(clo.Bindings) {
+				continue
+			}
+			et := derefType(fv.Type())
+			sl, ok := et.Underlying().(*types.Slice)
+			if !ok {
+				continue
+			}
+			var addr *Addr
+			switch x := clo.Bindings[bi2].(type) {
+			case *Term:
+				addr = refAddr(x, et)
+			case *Addr:
+				addr = x
+			}
+			if addr == nil {
+				continue
+			}
+			oldv := pre.load(addr)
+			newv := st.load(addr)
+			bi, i := freshBVar("i", sortInt)
+			bj, j := freshBVar("j", sortInt)
+			bkk, kk := freshBVar("k", sortStr)
+			pct := &callTarget{fn: clo.Fn, bindings: clo.Bindings, display: shortName(clo.Fn), args: []Value{kk}, argTypes: []types.Type{types.Typ[types.String]}, sig: clo.Fn.Signature}
+			penv := f.calleeEnv(c, pct, st, pre)
+			penv.names[pe.Label] = SV{t: tSelect(slArr(newv), i), typ: sl.Elem()}
+			pred, err := penv.formula(pe.Expr)
+			if err != nil {
+				f.eng.specError(c.Func, pe, err)
+				continue
+			}
+			was := mkQuant("exists", []BVar{bj}, tAnd(tLe(tInt(0), j), tLt(j, slLen(oldv)), tEq(tSelect(slArr(newv), i), tSelect(slArr(oldv), j))))
+			app := mkQuant("exists", []BVar{bkk}, tAnd(containsTerm(xs, kk), pred))
+			f.root.hyps = append(f.root.hyps, tImp(st.pc, mkQuant("forall", []BVar{bi}, tImp(tAnd(tLe(tInt(0), i), tLt(i, slLen(newv))), tOr(was, app)))))
+		}
+	}
+	// per-key [par] postconditions
+	bq, kq := freshBVar("k", sortStr)
+	nct := &callTarget{fn: clo.Fn, bindings: clo.Bindings, display: shortName(clo.Fn), args: []Value{kq}, argTypes: []types.Type{types.Typ[types.String]}, sig: clo.Fn.Signature}
+	env := f.calleeEnv(c, nct, st, pre)
+	env.bvars[bq.Name] = SV{t: kq, typ: types.Typ[types.String]}
+	env.bindResults(tSelect(val, kq), clo.Fn.Signature)
+	var posts []*Term
+	for _, en := range c.Ensures {
+		if !hasTag(en.Tags, "par") {
+			continue
+		}
+		t, err := env.formula(en.Expr)
+		if err != nil {
+			f.eng.specError(c.Func, en, err)
+			continue
+		}
+		posts = append(posts, t)
+	}
+	if len(posts) > 0 {
+		body := tImp(tSelect(dom, kq), tAnd(posts...))
+		q := mkQuant("forall", []BVar{bq}, body)
+		// pc-guarded, added directly (body is closed under the binder)
+		f.root.hyps = append(f.root.hyps, tImp(st.pc, q))
+	}
 	return r
 }
